@@ -66,6 +66,23 @@ def generate(tier, rng):
         lines.append("state")
         cases.append(Case("c03-seq-%d" % i, lines, {"opts": o, "complete": True, "expect_requests": nreq,
                                                     "tags": ["sequence", o["flavour"]]}))
+    # responses sent piece by piece from the message-sent handler (head, chunk a<k>, chunk b<k>, last chunk — each issued
+    # when the previous write has completed): every piece of every response must reach the wire, in order
+    for i in range(80 if tier == "quick" else 3000):
+        line, o = gen_sim.server_line(rng, {"policy": "sync", "resp": "chunked", "senth": 1, "filter": "all", "autodisc": 0,
+                                            "invh": 0, "conth": 0, "chunkh": 0})
+        lines = [line, "accept"]
+        if o["flavour"] == "ssl":
+            lines.append("hs c0 ok")
+        nreq = rng.range(1, 4)
+        for j in range(nreq):
+            data = gen_sim.req(target=b"/k%d" % j, headers=[gen_sim.HOST])
+            for part in gen_sim.split_reads(rng, data):
+                lines.append("read c0 " + hx(part))
+            lines += ["wdone c0"] * 4
+        lines.append("state")
+        cases.append(Case("c03-chk-%d" % i, lines, {"opts": o, "complete": True, "expect_chunked": nreq,
+                                                    "tags": ["sent-driven", o["flavour"]]}))
     return cases
 
 
@@ -114,6 +131,19 @@ def oracle(case, out):
         wires = sum(1 for l in out if l.startswith("io wire ") and "485454502f312e3120323030" in l)
         if got != n or wires != n:
             return "%d complete valid requests were sent one after the other, %d were delivered and %d were answered with 200" % (n, got, wires)
+    n = case.meta.get("expect_chunked")
+    if n is not None and not case.meta.get("kf"):
+        data = b"".join(bytes.fromhex(l.split()[3]) for l in out if l.startswith("io wire c0 ") and len(l.split()) > 3 and l.split()[3] != "-")
+        want = b""
+        import re as _re
+        pieces = _re.findall(rb"\r\n\r\n|2\r\n[ab]\d\r\n|0\r\n\r\n", data)
+        got = [p for p in pieces if p[:1] in (b"2", b"0")]
+        exp = []
+        for k in range(1, n + 1):
+            exp += [b"2\r\na%d\r\n" % k, b"2\r\nb%d\r\n" % k, b"0\r\n\r\n"]
+        if got != exp:
+            return ("%d requests were each answered with a chunked response sent piece by piece from the message-sent handler; "
+                    "the chunk pieces on the wire are %s, expected %s" % (n, got, exp))
     return None
 
 
